@@ -298,7 +298,9 @@ def nuts(n_iter,
         if ii % info_freq == 0 and ii < n_iter:
             logger.info("NUTS: Iterations performed: {}/{}...".format(ii, n_iter))
 
-    info_str = "NUTS: Acceptance ratio: {:.3f}".format(float(n_iter - n_adapt) / n_total)
+    # n_total counts the steps taken after iteration n_adapt + 1; it is 0 when that was the last one
+    final_ratio = float(n_iter - n_adapt) / n_total if n_total > 0 else np.nan
+    info_str = "NUTS: Acceptance ratio: {:.3f}".format(final_ratio)
     if n_outside > 0:
         info_str += ". After warmup {} proposals were outside of the region allowed by priors " \
                     "and rejected, decreasing acceptance ratio.".format(n_outside)
